@@ -45,8 +45,16 @@ func newRecorder() *recorder {
 	return r
 }
 
+// goroutines of earlier recorded calls that may still be running (a feeder that goes on sending after the workers have
+// stopped on a failure, ...): their events belong to no later run.  Goroutine ids are never reused.
+var staleIDs atomic.Value // map[uint64]bool, replaced (never modified) when a recording ends
+var staleHistory [][]uint64
+
 func (r *recorder) hook(pt string, a, b int) {
 	id := goid()
+	if st, ok := staleIDs.Load().(map[uint64]bool); ok && st[id] {
+		return
+	}
 	m := r.logs.Load().(map[uint64]*gLog)
 	l, ok := m[id]
 	if !ok {
@@ -72,6 +80,21 @@ func (r *recorder) install() func() []*gLog {
 		// (the hook stays installed: goroutines of the finished call may still be running; a new recorder replaces it)
 		r.mu.Lock()
 		defer r.mu.Unlock()
+		ids := []uint64{}
+		for id := range r.logs.Load().(map[uint64]*gLog) {
+			ids = append(ids, id)
+		}
+		staleHistory = append(staleHistory, ids)
+		if len(staleHistory) > 8 {
+			staleHistory = staleHistory[1:]
+		}
+		st := map[uint64]bool{}
+		for _, l := range staleHistory {
+			for _, id := range l {
+				st[id] = true
+			}
+		}
+		staleIDs.Store(st)
 		return r.order
 	}
 }
